@@ -343,6 +343,8 @@ pub fn dict_hist_case(cx: &mut Ctx, c: &Value) {
                 Err(m) => cx.sum.fail(hcell, None, cj.clone(), &format!("{}: panicked: {}", at("optimize_cache"), m)),
                 Ok(Err(e)) => cx.sum.fail(hcell, None, cj.clone(), &format!("{}: refused: {:?}", at("optimize_cache"), e)),
                 Ok(Ok(())) => cx.sum.dist("dict_hist_optimize_cache") } }
+            // ZiporaTrie::clone re-inserts every key: minutes for a cache of 100 000 states (min_frequency 0 on 16 KiB) - skipped there
+            5 if d.cache_states() > 50_000 => cx.sum.dist("dict_hist_clone_skipped_huge_cache"),
             5 => { match guarded(|| d.clone()) {
                 Err(m) => cx.sum.fail(hcell, None, cj.clone(), &format!("{}: panicked: {}", at("clone"), m)),
                 Ok(c2) => { cx.sum.dist("dict_hist_clone"); if x % 2 == 0 { d = c2; } else { spare = Some(c2); } } } }
@@ -430,6 +432,7 @@ fn dict_hist_family(cx: &mut Ctx, rng: &mut Rng, universe: &[(Vec<u8>, Vec<Vec<u
         let c = json!({"cell": "dict_hist", "variant": (ui as u64 / stride as u64) % DICT_VARIANTS, "text": t, "patterns": qs, "ops": ops});
         dict_hist_case(cx, &c);
     }
+    if std::env::var("ZV_C12_TRACE").is_ok() { eprintln!("dict_hist universe part done {:?}", std::time::SystemTime::now().duration_since(std::time::UNIX_EPOCH).map(|d| d.as_secs() % 100000)); }
     // (2) generated texts
     let ng = if thorough { 1500 } else { 120 };
     for i in 0..ng {
@@ -443,6 +446,7 @@ fn dict_hist_family(cx: &mut Ctx, rng: &mut Rng, universe: &[(Vec<u8>, Vec<Vec<u
         let c = json!({"cell": "dict_hist", "variant": i as u64 % DICT_VARIANTS, "text": t, "patterns": qs, "ops": ops});
         dict_hist_case(cx, &c);
     }
+    if std::env::var("ZV_C12_TRACE").is_ok() { eprintln!("dict_hist generated part done {:?}", std::time::SystemTime::now().duration_since(std::time::UNIX_EPOCH).map(|d| d.as_secs() % 100000)); }
     // (3) around the sampling switch (training data of more than 10 000 bytes and sample_ratio < 1)
     let mut big: Vec<(u64, &str, usize)> = vec![(8, "rand256", 10_000), (8, "rand256_zt", 10_001), (10, "rand5skew", 10_001), (4, "rand256", 10_001), (11, "rand4", 10_002), (10, "runs", 10_000), (2, "rand256_zt", 70_000)];
     if thorough { big.extend([(8, "rand5skew_zt", 20_001), (10, "rand256", 20_000), (9, "rand256_zt", 16_385), (5, "rand5skew", 10_001)]); }
